@@ -163,3 +163,50 @@ ssize_t read(int fd, void *buf, size_t n) {
     }
     return syscall(SYS_read, fd, buf, n);
 }
+
+
+/* ---- SIGINT disposition seam ---------------------------------------------------------------------------------------
+ * In the simulation SIGINT never arrives as a real signal: s4_verif_rt runs the registered handler closure from a
+ * simulated thread at the planned step. What the program does to the signal's *disposition* would therefore go unseen
+ * (a handler that restores SIG_DFL so that "a second Ctrl-C is not kept waiting" makes the second one kill the process
+ * with nothing cleaned up). sigaction()/signal() for SIGINT are recorded here instead of being applied, and the runtime
+ * asks s4sim_sigint_disposition() before it delivers: 0 = whatever the ctrlc stand-in installed, 1 = default, 2 = ignored.
+ */
+#include <signal.h>
+#ifndef _GNU_SOURCE
+#define _GNU_SOURCE
+#endif
+#include <dlfcn.h>
+
+static volatile int sigint_disposition;
+
+int s4sim_sigint_disposition(void) { return sigint_disposition; }
+
+static void note_sigint(void (*h)(int)) {
+    sigint_disposition = (h == SIG_DFL) ? 1 : (h == SIG_IGN) ? 2 : 0;
+}
+
+int sigaction(int sig, const struct sigaction *act, struct sigaction *old) {
+    if (sig == SIGINT) {
+        if (old) memset(old, 0, sizeof *old);
+        if (act) note_sigint((act->sa_flags & SA_SIGINFO) ? (void (*)(int))1 : act->sa_handler);
+        return 0;
+    }
+    static int (*real)(int, const struct sigaction *, struct sigaction *);
+    if (!real) real = (int (*)(int, const struct sigaction *, struct sigaction *))dlsym(RTLD_NEXT, "sigaction");
+    return real ? real(sig, act, old) : -1;
+}
+
+void (*signal(int sig, void (*h)(int)))(int) {
+    if (sig == SIGINT) {
+        note_sigint(h);
+        return SIG_DFL;
+    }
+    struct sigaction a, o;
+    memset(&a, 0, sizeof a);
+    a.sa_handler = h;
+    a.sa_flags = SA_RESTART;
+    sigemptyset(&a.sa_mask);
+    if (sigaction(sig, &a, &o) != 0) return SIG_ERR;
+    return o.sa_handler;
+}
